@@ -12,7 +12,7 @@ From Coq Require Import List NArith Bool.
 Import ListNotations.
 Require Import MV.C09.Model MV.C09.Spec MV.C09.Exec MV.C09.Inv MV.C09.Abs MV.C09.Safety MV.C09.Render
                MV.C09.Conserve MV.C09.Sound MV.C09.Final MV.C09.Compose MV.C09.WModel MV.C09.WSpec MV.C09.WProofs.
-Require MV.C09.XExec MV.C09.XProofs.
+Require MV.C09.XExec MV.C09.XProofs MV.C09.FlushProofs.
 Open Scope N_scope.
 
 (* the constructor establishes the invariant *)
@@ -153,11 +153,15 @@ Qed.
 Theorem C09_flush_total : forall f ms, f_max f < two32 -> run_flush f ms <> None.
 Proof. exact flush_total. Qed.
 
-(* full statement: forall c, XExec.spec_ok c (XExec.run_case c) = true; proved for writer and builder
-   cases; for one-flush cases (XF) only C09_flush_total and the per-write theorems apply *)
-Theorem C09_xspec_ok_on_model_partial : forall c,
-  (match c with XExec.XF _ _ => False | _ => True end) -> XExec.spec_ok c (XExec.run_case c) = true.
-Proof. exact XProofs.xspec_ok_on_model_partial. Qed.
+(* one flush of State (counters, gauges, histograms through the writer, then the forwarder's drain):
+   the flush specification (bodies grouped by metric, each group complete, names prefixed per the
+   telemetry rule) accepts the model's output *)
+Theorem C09_flush_spec_ok_on_model : forall f ms, spec_flush_ok f ms (run_flush f ms) = true.
+Proof. exact FlushProofs.spec_flush_ok_on_model. Qed.
+
+(* all case kinds of the correspondence check (writer op sequences, builder op sequences, one-flush) *)
+Theorem C09_xspec_ok_on_model : forall c, XExec.spec_ok c (XExec.run_case c) = true.
+Proof. exact XProofs.xspec_ok_on_model. Qed.
 
 Theorem C09_display_refuted_before_fix :
   exists ops, XExec.spec_ok (XExec.XB ops) (XExec.OB (run_builder false bdefault ops)) = false.
